@@ -38,3 +38,12 @@ Theorem C18_edge_point_on_circle : forall (s e : pt3 R) (c : pt2 R), s <> e ->
   let d := pt3_sub (edge_point s e c) s in
   (pt3_dot d d = x2 c * x2 c + y2 c * y2 c)%R /\ pt3_dot d (pt3_sub e s) = 0%R.
 Proof. exact edge_point_on_circle. Qed.
+
+(* ... and it is a closed, outward-facing solid for every edge whose end points differ, in every direction (the cylinder is,
+   the frame is a proper rotation in every branch of look_at_matrix_lh, rigid motions keep the enclosed signed volume) *)
+From SCAD Require Import Geom.Mesh_exact Geom.Volume_proofs Parts.Viewer_solid_proofs.
+Theorem C18_edge_cylinder_is_a_closed_solid : forall (r : R) (segments : Z) (s e : pt3 R) ph, s <> e -> r <> 0%R ->
+  cylinder r (pt3_len (pt3_sub e s)) segments = Some ph ->
+  let moved := poly_translate (poly_apply_matrix ph (mt4_look_at_lh s e up_z)) s in
+  closed_exact (snd moved) /\ (vol6 (fst moved) (snd moved) < 0)%R.
+Proof. exact edge_cylinder_closed_outward. Qed.
